@@ -16,8 +16,11 @@ parser checks it; budget where the parser reserves).
 * `unknown_inert`, `after_idat_ignored`, `sbit_trns_prechecks_ignored`.
 * `text_errors_fatal`: documents real behaviour — malformed tEXt/zTXt/iTXt are NOT benign.
 * `srgb_overrides`: accessor fact.
-A chunk of length 0 is never parsed (`C10.empty_chunk_unparsed`), so none of this applies to empty bodies:
-an empty gAMA/… is simply absent.
+All of this holds for EVERY body length, 0 included: since f31d047 a chunk of length 0 is handed to `parse_chunk`
+like any other (`C10.every_chunk_parsed`, `C10.empty_chunk_parsed`).  So an empty gAMA/cHRM/sRGB/pHYs/sBIT/tRNS/iCCP is a
+too-short body of a benign kind — ignored (`benign_inert`); an empty unknown chunk is ignored (`unknown_inert`); an empty
+eXIf is the empty block (`parse_encode_eXIf_empty`); an empty tEXt/zTXt/iTXt is fatal (`text_without_nul_fatal`, which
+covers the empty body), as is an empty acTL/fcTL (`C10.actl_short_rejected`, `C10.fctl_short_rejected`).
 -/
 namespace Png.C16
 open Png Png.Framing
@@ -109,6 +112,14 @@ theorem parse_encode_mDCV (d : Dec) (i : Info) (rx ry gx gy bx by_ wx wy mx mn :
 theorem parse_encode_eXIf (d : Dec) (i : Info) (hi : d.info = some i) (hfirst : i.exif = none) :
     parseExif d = .ok (setInfo d (fun i => { i with exif := some d.raw }), .nothing) := by
   simp [parseExif, withInfo, hi, hfirst]
+
+/-- in particular the EMPTY eXIf chunk (parsed since f31d047): the empty block is reported -/
+theorem parse_encode_eXIf_empty (cfg : Cfg) (d : Dec) (i : Info) (hi : d.info = some i) (hfirst : i.exif = none)
+    (hraw : d.raw = []) :
+    parseChunk cfg d eXIf = .ok (.nothing, setInfo (d.atCrc eXIf) (fun i => { i with exif := some [] })) := by
+  have := parse_encode_eXIf (d.atCrc eXIf) i hi hfirst
+  rw [show (d.atCrc eXIf).raw = [] from hraw] at this
+  exact parseChunk_of_ok (by rw [dispatch_eXIf]; exact this)
 
 /-- sBIT: one byte per channel (`sbitExpected` of the colour type), each between 1 and the sample depth;
     stored verbatim; the bytes are charged to `Limits` -/
@@ -425,7 +436,8 @@ theorem unknown_inert (cfg : Cfg) (d : Dec) (t : ChunkType)
   ⟨parseChunk_of_ok (dispatch_unknown cfg (d.atCrc t) t h), rfl, rfl⟩
 
 /-- **Malformed text chunks are FATAL** (tEXt, zTXt, iTXt are not in the benign list): every parser error
-    becomes the error of `parse_chunk` and poisons the decoder; e.g. a body without NUL separator -/
+    becomes the error of `parse_chunk` and poisons the decoder; e.g. a body without NUL separator (`text_without_nul_fatal`:
+    in particular the EMPTY body, which is parsed since f31d047) -/
 theorem text_errors_fatal (cfg : Cfg) (d : Dec) (t : ChunkType) (e : PErr) (ht : t = tEXt ∨ t = zTXt ∨ t = iTXt)
     (he : dispatch cfg (d.atCrc t) t = .error e) : parseChunk cfg d t = .error e.toErr := by
   apply parseChunk_of_error he
@@ -514,6 +526,16 @@ example :
     (runF toyCfg d0 (sig ++ ihdr ++ chunk sBIT [9])).2.2 = none ∧
     ((runF toyCfg d0 (sig ++ ihdr ++ chunk sBIT [9])).1.info.bind (·.sbit)) = none ∧
     (runF toyCfg d0 (sig ++ ihdr ++ chunk sBIT [9])).1.limit = d0.limit - 1 := by
+  decide +kernel
+
+/-- EMPTY bodies (parsed since f31d047): an empty gAMA, sRGB, tRNS, sBIT is a malformed benign chunk — ignored, nothing
+    reported; an empty unknown chunk is ignored; an empty eXIf is the empty block; the image still decodes -/
+example :
+    let s := sig ++ ihdr ++ chunk gAMA [] ++ chunk sRGB [] ++ chunk tRNS [] ++ chunk sBIT [] ++ chunk tIME [] ++ chunk eXIf [] ++
+      idat ++ iend
+    let r := runF toyCfg d0 s
+    r.2.2 = none ∧ r.1.out = [7, 9] ∧
+    r.1.info = some { width := 1, height := 1, depth := 8, color := 0, interlaced := false, exif := some [] } := by
   decide +kernel
 
 /-- a malformed text chunk is fatal -/
